@@ -18,7 +18,7 @@ with / passes without the patch; suite passes) and run through the checks with
 `lib/seedtest.sh` (which restores the evidence file afterwards, so evidence
 always describes the unchanged tree):
 
-%d seeded changes in seven rounds (C20 is not applicable). Every one is caught by the quick tier of a registered check
+%d seeded changes in eight rounds (C20 is not applicable). Every one is caught by the quick tier of a registered check
 (its property's own, except where the table names another) on the current tree. %d of them were missed or mishandled
 when first run. Most misses had one cause: the case space lacked the feature the change needs (a builder method, a
 clause, a value shape, a call order). In a few the check compared less than the property states — C09 compared the
